@@ -769,7 +769,8 @@ class LoggerFailedCall(common.Suite):
 
             for k in range(case["nfields"]):
                 if case["array_field"] and k == 1:
-                    lg.add_field(("A1", "A2"), field(k), str_format="{:8.2f} {:8.2f}", is_array=True)
+                    # an array field may be named by one string (documented) or by one name per component
+                    lg.add_field("A12" if case["ncalls"] % 2 else ("A1", "A2"), field(k), str_format="{:8.2f} {:8.2f}", is_array=True)
                 else:
                     lg.add_field(f"F{k}", field(k), str_format="{:10.3f}")
             lg.write_header()
@@ -793,6 +794,8 @@ class LoggerFailedCall(common.Suite):
         return []
 
     def oracle(self, case, obs):
+        if "exception" in obs:
+            return [(f"log:exception:{obs['exception']}", obs.get("message", "") + obs.get("trace", "")[-300:])]
         out = []
         lines = obs["final"].split("\n")
         good = [c for c in obs["calls"] if c["ok"]]
